@@ -157,3 +157,122 @@ func TestVerifRaceState(t *testing.T) {
 	_ = f.s.Send(fixgen.CreateHeartbeat()) // unblock the drain loop
 	wg.Wait()
 }
+
+// TestVerifRaceTimers: no application traffic, so the heartbeat timer (N = 1 s) really expires; the
+// peer then asks for a retransmission of everything sent so far (the timer-produced messages
+// included) and the timer expires again afterwards. Inbound keep-alives stop before the request so
+// that nothing else orders the inbound dispatch goroutine and the timer goroutine.
+func TestVerifRaceTimers(t *testing.T) {
+	side := 0
+	if os.Getenv("VERIF_SIDE") == "1" {
+		side = 1
+	}
+	st := memory.NewStorage()
+	var f *fx
+	peer, me := "CLI", "SRV"
+	if side == 0 {
+		f = newAcceptor(st, 1, 60, 50*time.Millisecond, "0")
+		f.logon("CLI", "SRV", 1, 1)
+	} else {
+		f = newInitiator(st, 1, "0", "user", "pw", 50*time.Millisecond)
+		peer, me = "SRV", "CLI"
+		lg := fixgen.CreateLogon("0", 1)
+		setHdr(lg.Header(), "SRV", "CLI", 1)
+		_ = f.serve(wire(lg))
+	}
+	if !f.s.IsLogged() {
+		t.Fatal("fixture: not logged on")
+	}
+	var heartbeats, total int32
+	done := make(chan struct{})
+	var wg sync.WaitGroup
+	wg.Add(1)
+	go func() {
+		defer wg.Done()
+		for {
+			select {
+			case m := <-f.h.Outgoing():
+				atomic.AddInt32(&total, 1)
+				if typeOf(m) == "0" {
+					atomic.AddInt32(&heartbeats, 1)
+				}
+			case <-done:
+				return
+			}
+		}
+	}()
+	seq := 2
+	wait := func(cond func() bool, keepAlive bool) {
+		end := time.Now().Add(6 * time.Second)
+		for !cond() && time.Now().Before(end) {
+			if keepAlive {
+				hb := fixgen.CreateHeartbeat()
+				setHdr(hb.Header(), peer, me, seq)
+				seq++
+				_ = f.h.VerifServe(wire(hb))
+			}
+			time.Sleep(100 * time.Millisecond)
+		}
+	}
+	wait(func() bool { return atomic.LoadInt32(&heartbeats) >= 2 }, true)
+	before := atomic.LoadInt32(&total)
+	rr := fixgen.CreateResendRequest(1, 0)
+	setHdr(rr.Header(), peer, me, seq)
+	seq++
+	_ = f.h.VerifServe(wire(rr))
+	hbBefore := atomic.LoadInt32(&heartbeats)
+	wait(func() bool { return atomic.LoadInt32(&total) > before }, false)
+	// the timers expire again (heartbeat after 1 s, TestRequest after 2 s of inbound silence)
+	wait(func() bool { return atomic.LoadInt32(&heartbeats) >= hbBefore+3 }, false)
+	rr2 := fixgen.CreateResendRequest(1, 0)
+	setHdr(rr2.Header(), peer, me, seq)
+	_ = f.h.VerifServe(wire(rr2))
+	time.Sleep(1200 * time.Millisecond)
+	close(done)
+	wg.Wait()
+}
+
+// TestVerifRaceEvents: an event is being delivered (a slow application handler of the logout event
+// is running on the inbound dispatch goroutine) while the application registers further handlers
+// and stops the session.
+func TestVerifRaceEvents(t *testing.T) {
+	st := memory.NewStorage()
+	f := newAcceptor(st, 1, 60, 50*time.Millisecond, "0")
+	f.logon("CLI", "SRV", 1, 30)
+	if !f.s.IsLogged() {
+		t.Fatal("fixture: not logged on")
+	}
+	f.s.OnChangeState(utils.EventLogout, func() bool {
+		time.Sleep(600 * time.Millisecond)
+		return true
+	})
+	f.s.OnChangeState(utils.EventLogout, func() bool { return true })
+	done := make(chan struct{})
+	var wg sync.WaitGroup
+	wg.Add(2)
+	go func() {
+		defer wg.Done()
+		for {
+			select {
+			case <-f.h.Outgoing():
+			case <-done:
+				return
+			}
+		}
+	}()
+	_ = f.s.Logout()
+	go func() { // inbound dispatch: the peer's Logout answer triggers the logout event
+		defer wg.Done()
+		lo := fixgen.CreateLogout()
+		setHdr(lo.Header(), "CLI", "SRV", 2)
+		_ = f.h.VerifServe(wire(lo))
+	}()
+	time.Sleep(200 * time.Millisecond) // the slow handler is running now
+	f.s.OnChangeState(utils.EventLogout, func() bool { return true })
+	_ = f.s.Stop()
+	f.s.OnChangeState(utils.EventLogout, func() bool { return true })
+	f.s.OnChangeState(utils.EventDisconnect, func() bool { return true })
+	time.Sleep(700 * time.Millisecond)
+	close(done)
+	wg.Wait()
+}
